@@ -2,6 +2,26 @@
 """Regenerates §11 of DESIGN.md (seeded defects table) from seeded/*/meta.json."""
 import json, os, re, glob
 V = os.path.dirname(os.path.dirname(os.path.abspath(__file__)))
+MISSES = """
+### 11.1 Changes that were missed at first, and what was added for them
+
+| seed | why the check of the time stayed quiet | what was added |
+|---|---|---|
+| C01b | its only symptom matched the signature of a known finding | `never_known` veto expressions in `known_findings.json`; signatures now quote evidence from the run |
+| C02c, C05c, C01c, C07c | the property's own oracle cannot see the change | the matrix tries the check whose oracle can (C12, C18, C03); C18 got the config-change histories with coordinator restarts that C05c needs |
+| C02d | reads were only sent to the leader the client knew | reads through past leaders and directed probes while an election is running (`probeDuringElection`, `ReadVia`) |
+| C08c | a stream send always returned before anything else could happen | stream sends that return late (`LateSendPct`) |
+| C11c | reads never looked into an open batch | in-batch range and lookup reads, long first path elements |
+| C15c | index ranges always had a lower bound | open-start ranges |
+| C17c | no write ever landed inside a trimming round | `kv.SimBeforeCommit` holds the trimmer, a write commits meanwhile |
+| C18c | the coordinator never restarted on an empty status | "remove all namespaces, restart, add one" step; stored-term monotonicity |
+| C14d | the known-finding text did not require evidence of ownership | `gainedAt`: the finding only matches when the run shows the record was written under the session after the listing |
+| C17d | subscriptions were only opened while nothing else happened | subscriptions opened during a burst of writes, late-returning stream sends |
+| C05d | no simulated world made storing a term fail | `kv.SimTermStoreFault` in 15 % of the C04/C05 runs |
+| C03d | a leader's view carried its quorum commit offset, not what its DB had applied | the DB's stored offset counts for leader controllers; `applied-without-quorum` |
+| C19b | — | no longer a defect after fix 63fbb1f |
+| C18d | needs a namespace placed in part; not reached (see its row) | racks that cross zones in 30 % of the C18/C19 runs — reaches whole-namespace refusals and a selector panic (§12), not the partial case |
+"""
 rows = []
 for d in sorted(glob.glob(os.path.join(V, "seeded", "C*"))):
     m = json.load(open(os.path.join(d, "meta.json")))
@@ -29,12 +49,12 @@ quiet the script tries the check named for that change in its `ALT` table — a 
 against one property can be visible only through the oracle of another (a delete-range defect filed
 under C02 is a C12 state mismatch; a torn read of the coordinator's status record filed under C05
 needs the config-change histories of C18; a leader that applies an uncommitted tail, filed under C07,
-is caught by the C03 commit ledger). """ + str(len(rows)) + """ changes in four waves; a change that an accepted repair has
+is caught by the C03 commit ledger). """ + str(len(rows)) + """ changes in seven waves; a change that an accepted repair has
 since made harmless says so in the last column.
 
 | seed | file changed | change (first sentence of the author's summary) | reported by |
 |---|---|---|---|
-""" + "\n".join(rows) + "\n"
+""" + "\n".join(rows) + "\n" + MISSES
 s = open(os.path.join(V, "DESIGN.md")).read()
 if "@@SECTION11@@" in s:
     s = s.replace("@@SECTION11@@", out.rstrip())
